@@ -310,7 +310,24 @@ class Parser:
             s.skip_semis()
         s.next(); s.nolit=sv; return {"k":"lit","t":ty,"fs":fs}
 
-def parse(src): return Parser(src).file()
+def _shadow(x, names):
+    if isinstance(x, dict):
+        if x.get("k") == "nil" and "nil" in names:
+            return {"k": "id", "n": "nil"}
+        if x.get("k") == "bool" and ("true" if x.get("v") else "false") in names:
+            return {"k": "id", "n": "true" if x["v"] else "false"}
+        return {k: _shadow(v, names) for k, v in x.items()}
+    if isinstance(x, list):
+        return [_shadow(v, names) for v in x]
+    return x
+
+
+def parse(src):
+    ast = Parser(src).file()
+    names = (set(ast["funcs"]) | set(ast["types"])) & {"nil", "true", "false"}
+    if names:
+        ast["blocks"] = _shadow(ast["blocks"], names)
+    return ast
 
 if __name__=="__main__":
     for p in sys.argv[1:]:
